@@ -381,32 +381,45 @@ Definition small_uint (d : dtype) : bool :=
 Definition gridQ (k m : Z) : Q := Qmake m (Z.to_pos (2 ^ k)).
 
 (* the C11 converter on a grid value: nearest, half to even, saturating *)
-Lemma convert_units : forall dt k m, small_uint dt = true -> 0 <= k <= 1000 -> Z.abs m < 2 ^ 53 ->
+Lemma convert_units : forall dt k m, is_uint dt = true -> 0 <= k <= 1000 -> Z.abs m < 2 ^ 53 ->
   convert_scalar F64 dt (NF (fl k m)) = nearest_sat dt (gridQ k m).
 Proof.
   intros dt k m Hd Hk Hm.
   destruct (fl_Rep k m Hk Hm) as [(Hv & Hf & Hr) _].
-  rewrite (float_to_int_nearest_on_guard F64 dt (fl k m)); try assumption; try reflexivity.
-  - unfold nearest_sat. assert (Hi : is_int dt = true) by (destruct dt; try discriminate Hd; reflexivity).
-    rewrite Hi. do 2 f_equal. apply rhe_Q_Qeq. apply Qreals.eqR_Qeq.
+  assert (Hq : (SF2Q (fl k m) == gridQ k m)%Q).
+  { apply Qreals.eqR_Qeq.
     rewrite <- SF2R_Q2R, Hr. unfold gridQ, Q2R, F2R. cbn [Qnum Qden Fnum Fexp].
     rewrite Z2Pos.id by (apply Z.pow_pos_nonneg; lia).
-    rewrite (IZR_Zpower radix2) by lia. rewrite <- bpow_opp. reflexivity.
-  - destruct dt; try discriminate Hd; reflexivity.
-  - destruct dt; try discriminate Hd; reflexivity.
+    rewrite (IZR_Zpower radix2) by lia. rewrite <- bpow_opp. reflexivity. }
+  rewrite (float_to_int_nearest_on_guard F64 dt (fl k m)); try assumption; try reflexivity.
+  - unfold nearest_sat. assert (Hi : is_int dt = true) by (destruct dt; try discriminate Hd; reflexivity).
+    rewrite Hi. do 2 f_equal. apply rhe_Q_Qeq. exact Hq.
+  - (* outside the uint64 top region: the value is below 2^53 *)
+    unfold uint64_top_guard. cbn [is_int negb andb num2Q].
+    destruct (dtype_eqb dt U64); [|reflexivity]. cbn [andb].
+    destruct (Qle_bool (inject_Z two64z) (SF2Q (fl k m))) eqn:E; [|reflexivity].
+    exfalso. apply Qle_bool_iff in E. rewrite Hq in E.
+    unfold Qle, gridQ, inject_Z in E. cbn [Qnum Qden] in E.
+    rewrite Z2Pos.id in E by (apply Z.pow_pos_nonneg; lia).
+    assert (0 < 2 ^ k) by (apply Z.pow_pos_nonneg; lia).
+    unfold two64z in E. change (2 ^ 64) with 18446744073709551616 in E.
+    change (2 ^ 53) with 9007199254740992 in Hm. nia.
 Qed.
+
+(* values small enough for the grid of multiples of 2^-k *)
+Definition small_val (k v : Z) : Prop := Z.abs (v * 2 ^ k) < 2 ^ 52.
 
 Lemma small_uint_range : forall dt v, small_uint dt = true -> in_range dt v -> 0 <= v < 2 ^ 32.
 Proof. intros dt v Hd Hr. destruct dt; try discriminate Hd; dt_unfold; lia. Qed.
 
-(* C07 (3), float part: on uint8/uint16/uint32 the model's float64 computation
-   is exact: the result is the exact pairwise average on the grid of multiples
-   of 2^-k, rounded half to even and saturated.  The outside value may be absent
-   (edge padding) or any multiple of 2^(3-k) below 2^(52-k), 3 <= k <= 20
-   (0, 1.5, 255, -3, ... with k = 4). *)
+(* C07 (3), float part: on unsigned integer voxels small enough for the grid the
+   model's float64 computation is exact: the result is the exact pairwise
+   average on the grid of multiples of 2^-k, rounded half to even and saturated.
+   The outside value may be absent (edge padding) or any multiple of 2^(3-k)
+   below 2^(52-k), 3 <= k <= 20 (0, 1.5, 255, -3, ... with k = 4). *)
 Theorem avg_exact_units : forall dt k (oc : option Z) fs (V : arr4 Z),
-  small_uint dt = true -> check_factors_avg fs = true -> 3 <= k <= 20 ->
-  optP (Pu 3) oc -> Forall4 (in_range dt) V ->
+  is_uint dt = true -> check_factors_avg fs = true -> 3 <= k <= 20 ->
+  optP (Pu 3) oc -> Forall4 (small_val k) V ->
   avg_model dt (option_map (fl k) oc) fs (map4 NI V) =
     Ok (map4 (fun m => nearest_sat dt (gridQ k m))
              (avg_gen zavg oc (fac fs 0) (fac fs 1) (fac fs 2) (map4 (fun v => v * 2 ^ k) V))).
@@ -415,15 +428,12 @@ Proof.
   assert (Hc : dtype_eqb (promote dt F64) F64 && can_cast_safe dt F64 = true)
     by (destruct dt; try discriminate Hd; reflexivity).
   rewrite Hc. cbn [negb]. f_equal.
-  assert (Hscale : forall v, in_range dt v -> Pu 3 (v * 2 ^ k)).
-  { intros v Hr. pose proof (small_uint_range dt v Hd Hr) as Hb. split.
-    - exists (v * 2 ^ (k - 3)). rewrite <- Z.mul_assoc, <- Z.pow_add_r by lia. do 2 f_equal. lia.
-    - assert (0 < 2 ^ k) by (apply Z.pow_pos_nonneg; lia).
-      assert (2 ^ k <= 2 ^ 20) by (apply Z.pow_le_mono_r; lia).
-      rewrite Z.abs_eq by nia. change (2 ^ 52) with (2 ^ 32 * 2 ^ 20). nia. }
+  assert (Hscale : forall v, small_val k v -> Pu 3 (v * 2 ^ k)).
+  { intros v Hb. split; [|exact Hb].
+    exists (v * 2 ^ (k - 3)). rewrite <- Z.mul_assoc, <- Z.pow_add_r by lia. do 2 f_equal. lia. }
   rewrite map4_map4.
-  rewrite (map4_ext_Forall4 _ _ (in_range dt) (fun x => to_f64 (NI x)) (fun v => fl k (v * 2 ^ k)) V HV).
-  2:{ intros v Hr. apply to_f64_units. lia. destruct (Hscale v Hr) as [_ Hb].
+  rewrite (map4_ext_Forall4 _ _ (small_val k) (fun x => to_f64 (NI x)) (fun v => fl k (v * 2 ^ k)) V HV).
+  2:{ intros v Hb. apply to_f64_units. lia. unfold small_val in Hb.
       change (2 ^ 52) with 4503599627370496 in Hb. change (2 ^ 53) with 9007199254740992. lia. }
   rewrite <- (map4_map4 _ _ _ (fl k) (fun v => v * 2 ^ k)).
   destruct (avg_f64_units k oc (fac fs 0) (fac fs 1) (fac fs 2) (map4 (fun v => v * 2 ^ k) V)
@@ -434,15 +444,28 @@ Proof.
   change (2 ^ 52) with 4503599627370496 in Hm. change (2 ^ 53) with 9007199254740992. lia.
 Qed.
 
+(* uint8 / uint16 / uint32: every value of the type is small enough *)
+Lemma small_uint_small_val : forall dt k v, small_uint dt = true -> 3 <= k <= 20 ->
+  in_range dt v -> small_val k v.
+Proof.
+  intros dt k v Hd Hk Hr. pose proof (small_uint_range dt v Hd Hr) as Hb. unfold small_val.
+  assert (0 < 2 ^ k) by (apply Z.pow_pos_nonneg; lia).
+  assert (2 ^ k <= 2 ^ 20) by (apply Z.pow_le_mono_r; lia).
+  rewrite Z.abs_eq by nia. change (2 ^ 52) with (2 ^ 32 * 2 ^ 20). nia.
+Qed.
+
+Lemma small_uint_is_uint : forall dt, small_uint dt = true -> is_uint dt = true.
+Proof. intros dt H. destruct dt; try discriminate H; reflexivity. Qed.
+
 Example avg_exact_units_example :
   (* uint8 row 1 2 4, factor 2 along x, outside value 1.5 = 24 * 2^-4 *)
-  small_uint U8 = true /\ check_factors_avg [2; 1; 1] = true /\ optP (Pu 3) (Some 24) /\
-  Forall4 (in_range U8) [[[[1; 2; 4]]]] /\
+  is_uint U8 = true /\ check_factors_avg [2; 1; 1] = true /\ optP (Pu 3) (Some 24) /\
+  Forall4 (small_val 4) [[[[1; 2; 4]]]] /\
   fl 4 24 = of_bits b64 4609434218613702656 /\
   avg_model U8 (Some (fl 4 24)) [2; 1; 1] [[[[NI 1; NI 2; NI 4]]]] = Ok [[[[NI 2; NI 3]]]].
 Proof.
   split. reflexivity. split. reflexivity. split. split. exists 3. reflexivity. reflexivity.
-  split. repeat constructor; vm_compute; discriminate.
+  split. repeat constructor; vm_compute; reflexivity.
   split; vm_compute; reflexivity.
 Qed.
 
